@@ -309,6 +309,7 @@ def add_alt_units_library(rnd, cfg, base_idx=0, p=0.25):
             break
     lib["units"] = units
     lib["gen_seed"] = rnd.getrandbits(48)
+    lib["tag_shift"] = 0.5  # its ln_prior tags differ from the base library's, row for row
     lib.pop("overrides", None)
     cfg["libraries"].append(lib)
     return len(cfg["libraries"]) - 1
